@@ -184,6 +184,53 @@ PLANS["C12"] = Plan("C12", spelling_models, post=spelling_groups,
                          "in every run; the canonical run of the real code is the oracle: TLC compares the abstract observation "
                          "sequences of each group; non-trivial = a rewritten run was compared with its canonical run",
                     extra=lambda tier, seed: gen.random_decide(tier, seed, n=150 if tier == "quick" else 4000))
+def fault_models(tier):
+    return [mc("MC_faults", "faults", Defects="{}", Tier=q(tier), Export="TRUE", replay_cap={"quick": 3000})]
+
+
+GET_KINDS = ["err", "notexist", "garbage", "null", "empty", "nullobj", "idxgarbage", "trunc", "flip", "extend"]
+
+
+def fault_variation(scn, tier, seed):
+    """the model places faults as plain errors; the replay varies the kind of failure per operation type
+    (error, not-exist, garbage, '[null]', empty, truncated, flipped ...) and runs every behaviour with the
+    discard logger and with a debug-level logger (group: same observations required)"""
+    r = random.Random(seed * 7368787 + 23)
+    out = []
+    for s in scn:
+        steps = []
+        for st in s["steps"]:
+            if st.get("op") != "req" or not st.get("faults"):
+                steps.append(st)
+                continue
+            ops = (st.get("pred") or {}).get("ops") or []
+            fl = []
+            for f in st["faults"]:
+                kind = "err"
+                if f["n"] <= len(ops) and ops[f["n"] - 1] == "get" and r.random() < 0.8:
+                    kind = r.choice(GET_KINDS)
+                fl.append({"n": f["n"], "kind": kind, "pos": r.randrange(0, 200)})
+            steps.append(dict(st, faults=fl))
+        for lg in (0, 1):
+            out.append(dict(s, id="%s/log%d" % (s["id"], lg), steps=steps, grp=s["id"], spv=lg, gk="log", opt={"log": lg},
+                            backend="fs" if hash(s["id"]) % 7 == 0 else "mem"))
+    return out
+
+
+PLANS["C10"] = Plan("C10", fault_models, post=fault_variation, extra=gen.byte_mutations, level="model_checking",
+                    rule="behaviours = every store-tick-probe-tick-probe scenario of MC_faults in which each store operation of the "
+                         "probing exchange fails or returns undecodable bytes, singly and in pairs, combined with origin errors / 5xx "
+                         "during validation and background revalidation (fault placement is a choice of the model, enumerated "
+                         "exhaustively by TLC); on replay the kind of failure is varied per operation (error, not-exist, garbage, "
+                         "'[null]', 'null', empty, truncated, bit flip, extended) and each behaviour runs with the discard logger and "
+                         "a debug-level logger (observations must agree); plus byte mutations / truncations of a stored index and "
+                         "entry at every position; a process crash or deadlock of the real code inside a scenario is a violation; "
+                         "non-trivial = an exchange with a fault, an origin failure or a logger comparison was judged")
+PLANS["C16"] = Plan("C16", lambda tier: [], extra=gen.concurrent, race=True, level="exploration",
+                    rule="(interim) free-running concurrent requests on one transport inside the synctest bubble, built with the Go race "
+                         "detector: same URI / same variant, other variants, other URIs, unsafe methods, stale-while-revalidate "
+                         "background refreshes; ownership monitors (response and request not written after return) and the "
+                         "history-independent sequential monitors evaluated by TLC on every reply")
 PLANS["C03"] = Plan("C03", uri_models, rows_to_scenarios=uri_scenarios,
                     rule="pairs (a, b) = every base URI of Uri.tla with up to two components replaced from the component alphabets "
                          "(scheme / host incl. IP literals / port / path segments incl. escapes, raw non-ASCII and dot segments / "
